@@ -103,7 +103,23 @@ func compare(g *group, rng *rand.Rand) (string, string) {
 	if rf > 2 {
 		lo = rf - 2
 	}
-	for i := lo; i <= rl+2; i++ {
+	var probe []uint64
+	if rl+2-lo <= 400 {
+		for i := lo; i <= rl+2; i++ {
+			probe = append(probe, i)
+		}
+	} else { // a long log: both ends completely, the middle sampled
+		for i := lo; i < lo+100; i++ {
+			probe = append(probe, i)
+		}
+		for i := rl - 100; i <= rl+2; i++ {
+			probe = append(probe, i)
+		}
+		for k := 0; k < 150; k++ {
+			probe = append(probe, lo+uint64(rng.Int63n(int64(rl-lo))))
+		}
+	}
+	for _, i := range probe {
 		rt, rerr := g.ref.Term(i)
 		wt, werr := g.w.Term(i)
 		if rerr != werr || rt != wt {
@@ -210,6 +226,10 @@ func runSeq(rec *mon.Recorder, e *env, c int) {
 		calls = append(calls, fmt.Sprintf("g%d=new(%x)", i, id[:4]))
 	}
 	steps := 10 + rng.Intn(31)
+	long := c%80 == 7
+	if long {
+		rec.Count("long_log_cases", 1)
+	}
 	saves, snapsInstalled, reopens := 0, 0, 0
 	violated := false
 	fail := func(g *group, gi int, sym, detail string) {
@@ -276,6 +296,10 @@ func runSeq(rec *mon.Recorder, e *env, c int) {
 					t = 1
 				}
 				n := 1 + rng.Intn(5)
+				if long && s < 5 && start == last+1 {
+					// a long log: thousands of entries per batch, as after hours of writes between two snapshots
+					n = 8300 + 450*s + int(start%97)
+				}
 				for i := 0; i < n; i++ {
 					typ := raftpb.EntryNormal
 					if rng.Intn(8) == 0 {
@@ -288,7 +312,10 @@ func runSeq(rec *mon.Recorder, e *env, c int) {
 				}
 				newLast := start + uint64(n) - 1
 				hs := raftpb.HardState{}
-				if rng.Intn(2) == 0 {
+				if long && s < 5 && n > 1000 {
+					g.commit = newLast - 1
+					hs = raftpb.HardState{Term: g.term, Vote: g.vote, Commit: g.commit}
+				} else if rng.Intn(2) == 0 {
 					if g.commit < newLast && rng.Intn(2) == 0 {
 						g.commit += uint64(rng.Intn(int(newLast-g.commit) + 1))
 					}
@@ -384,6 +411,9 @@ func runSeq(rec *mon.Recorder, e *env, c int) {
 					lo = first
 				}
 				idx := lo + uint64(rng.Intn(int(g.commit-lo)+1))
+				if long && g.commit-lo > 1000 {
+					idx = g.commit - uint64(rng.Intn(3)) // compacts (nearly) the whole long log at once
+				}
 				cs := &raftpb.ConfState{Nodes: []uint64{1, uint64(2 + rng.Intn(3))}}
 				d := data()
 				calls = append(calls, fmt.Sprintf("g%d.CreateSnapshot(%d) commit=%d first=%d last=%d", gi, idx, g.commit, first, last))
@@ -460,6 +490,19 @@ func runSeq(rec *mon.Recorder, e *env, c int) {
 				if i != gi {
 					sym = "other-group-changed:" + sym
 				}
+				fail(x, i, sym, d)
+				break
+			}
+			rec.Count("comparisons", 1)
+		}
+	}
+	// every history ends with a reopen of every group (cold caches) and one more comparison
+	if !violated {
+		for i, x := range groups {
+			x.w = wal.NewBadgerWAL(e.db, x.id)
+			x.flags["reopened"] = true
+			if sym, d := compare(x, rng); sym != "" {
+				calls = append(calls, fmt.Sprintf("g%d=final-reopen", i))
 				fail(x, i, sym, d)
 				break
 			}
